@@ -32,7 +32,14 @@ def _env():
     return env
 
 
-def run_shard(spec, scratch, grace=20.0):
+TIER_DEADLINE_S = {"quick": 1500.0, "thorough": float(os.environ.get("VERIF_THOROUGH_WALL", "900"))}
+TIER_SHARD_BUDGET_S = {"quick": 1e9, "thorough": float(os.environ.get("VERIF_THOROUGH_SHARD", "300"))}
+
+
+def run_shard(spec, scratch, grace=20.0, not_after=None):
+    if not_after is not None and time.time() > not_after:
+        # the tier's wall-time budget is used up: this shard is not explored (reported as such, never as a pass)
+        return {"name": spec["name"], "verdict": "inconclusive", "stop_reason": "not-run (tier wall-time budget)", "wall": 0.0, "errors": [], "paths": 0}
     sp = os.path.join(scratch, spec["name"].replace("/", "_") + ".spec.json")
     op = os.path.join(scratch, spec["name"].replace("/", "_") + ".out.json")
     json.dump(spec, open(sp, "w"))
@@ -130,7 +137,13 @@ def do_check(pid, mod, args, seed, scratch):
         s.pop("accepts_exclude", None)
     if args.only:
         shards = [s for s in shards if args.only in s["name"]]
-    shards.sort(key=lambda s: -float(s.get("cost", s.get("budget", 60))))
+    if tier == "quick":
+        shards.sort(key=lambda s: -float(s.get("cost", s.get("budget", 60))))  # longest first: best packing
+    else:
+        shards.sort(key=lambda s: float(s.get("cost", s.get("budget", 60))))  # cheapest first: what fits the wall-time budget gets explored
+        for s in shards:
+            s["budget"] = min(float(s.get("budget", 60)), TIER_SHARD_BUDGET_S[tier])
+    not_after = t0 + TIER_DEADLINE_S[tier]
     print(f"[{pid}] tier={tier} shards={len(shards)} jobs={args.jobs} known_open={len(known)}", flush=True)
 
     # 0. model supplement self-test (fail => harness error)
@@ -173,7 +186,7 @@ def do_check(pid, mod, args, seed, scratch):
     # 2. shards
     results = []
     with cf.ThreadPoolExecutor(max_workers=args.jobs) as ex:
-        futs = {ex.submit(run_shard, s, scratch): s for s in shards}
+        futs = {ex.submit(run_shard, s, scratch, 20.0, not_after): s for s in shards}
         for fu in cf.as_completed(futs):
             r = fu.result()
             r["spec"] = futs[fu]
@@ -249,6 +262,7 @@ def do_check(pid, mod, args, seed, scratch):
             "discharged": n_conf,
             "shards_inconclusive": [r["name"] for r in results if r.get("verdict") not in ("confirmed", "refuted")],
             "shards_refuted": [r["name"] for r in results if r.get("verdict") == "refuted"],
+            "shards_not_run_tier_budget": sum(1 for r in results if str(r.get("stop_reason", "")).startswith("not-run")),
             "paths_confirmed": sum(r.get("paths_confirmed", 0) for r in results),
             "paths_unknown": sum(r.get("paths_unknown", 0) for r in results),
             "paths_ignored_by_assumption": sum(r.get("paths_ignored", 0) for r in results),
